@@ -857,6 +857,35 @@ def gen_signal_vs_task_thread(seed, mode="loop"):
     return sc
 
 
+def gen_replace_by_own_name(seed, mode="loop"):
+    """C15/C04: a replaceable module is referenced by nobody but its context (the program dropped its handle); it is replaced by
+    m_mod_register() called with the NAME STRING OF THE OLD MODULE (m_mod_name(old)) and M_MOD_NAME_DUP: the old module - and
+    its copy of the name - goes away inside that very call"""
+    r = random.Random(seed * 109 + 83)
+    sc = Sc(mode, "replacement registered under the replaced module's own name string seed=%d" % seed)
+    driven_skeleton(sc)
+    A, B, C = 1, 2, 3
+    nm = r.choice(["rep", "twin", "x"])
+    sc.mod(A, nm, MOD_ALLOW_REPLACE | MOD_NAME_DUP, r.choice([0, 4, 6]))
+    sc.mod(B, nm, MOD_NAME_DUP | r.choice([0, MOD_ALLOW_REPLACE]), 0)
+    sc.mod(C, nm, MOD_NAME_DUP, 0)
+    for m in (A,):
+        for k in ("start", "stop"):
+            sc.cb(m, k, "*", [], ret=1)
+    sc.main += [("reg", A)] + ([("start", A)] if r.random() < 0.6 else []) + [("obs_drop", A)]
+    where = r.choice(["main", "step"])
+    if where == "main":
+        sc.main += [("reg", B, DRV), ("ctx_len",), ("nameof", B)]
+        steps = [[], []]
+    else:
+        steps = [[], [("reg", B, DRV), ("ctx_len",), ("nameof", B)], []]
+    if sc.mods[B][1] & MOD_ALLOW_REPLACE:
+        steps.append([("obs_drop", B), ("reg", C, DRV), ("nameof", C)])
+    driven_finish(sc, steps, rng=r)
+    finalize_main(sc)
+    return sc
+
+
 def gen_tick_in_flush(seed, mode="loop"):
     """C20: m_ctx_set_tick() called by a handler that the final flush of a loop run invokes (loop-stopped notification) while a
     tick is active"""
